@@ -24,14 +24,17 @@ META = dict(
                "importer and letting TLC evaluate the clauses on what was observed. Bounded small-scope exploration of an "
                "unbounded input space, hence model_checking level.",
     level_note="Histories <= 4 (quick) / 5 (thorough) revisions over <= 10 paths (depth 2; a non-ASCII name, names with a space, "
-               "a one-character name), files / symlinks / directories, executable bits, renames (also of directories, swaps, "
-               "rename onto a deleted path), kind changes, deletions, pointless commits, merges, several roots, tags, "
-               "committers with and without e-mail part and non-ASCII, multi-line / empty / non-ASCII messages, whole-second "
-               "timestamps (the stream format has no fractions), timezones incl. negative non-whole-hour offsets. Trees are "
-               "compared after DropEmptyDirs (the stream is git's format; the importer prunes directories that become "
-               "empty); empty-directory differences are counted in the evidence, not judged. Exporter in rich and --plain "
-               "mode; the importer as `brz fast-import` constructs it (pruning). Trusted: TLC, the JSON bridge, CommitBuilder (fixture re-read "
-               "and compared), the python-fastimport parser.",
+               "every fourth history a one-character name), files / symlinks / directories, executable bits, renames (also of "
+               "directories, swaps, rename onto a freed path), kind changes, deletions, pointless commits, merges (<= 3 parents "
+               "in thorough), several roots, tags, committers with and without e-mail part and non-ASCII, multi-line / empty / "
+               "non-ASCII messages, whole-second timestamps (the stream format has no fractions), timezones incl. negative "
+               "non-whole-hour offsets; every fifth history carries the branch-nick revision property of an ordinary commit. "
+               "Trees are compared after DropEmptyDirs (the stream is git's format; the importer prunes directories that "
+               "become empty); empty-directory differences are counted in the evidence, not judged. Exporter in rich and "
+               "--plain mode by history index; the importer as `brz fast-import` constructs it. Violation signatures name the "
+               "family of the delta-debugged minimal failing history (harness/channel_common.py cause_group); the python twin "
+               "of the law used for shrinking must agree with TLC on every row (else drift). Trusted: TLC, the JSON bridge, "
+               "CommitBuilder (fixture re-read and compared), the python-fastimport parser.",
 )
 
 VARIANTS = (("rich", False, True), ("plain", True, True))
